@@ -1154,3 +1154,110 @@ register("C11", gen=gen_pool, runner=c11_runner, oracles=[oracle.c11], cause=ora
 _lvl("C11", "proof",
      "Theorems: blocks_exact / index_in_unique_block (for every range, pool size and minimum size the blocks of the executed function mkBlocks are at most pool-size many, non-empty, contiguous, and every index lies in exactly one); no_stuck_state (transition system with N workers, flags, mutex, condition variable: for every N, every library-issued program of run_blocks/pause/resume and every interleaving, a state whose caller has not finished has an enabled thread - no lost wake-up, no deadlock), valid for the source because source_notifies_under_mutex is re-decided from the regenerated flag; source_publication (release/acquire orders regenerated from the source give happens-before for job data and results). resize/stop/destruction and real C++ data races are covered by the sanitizer runs only (partial).",
      "Lean 4 inductive invariant over all interleavings + Nat arithmetic proofs + decide over translator-regenerated memory orders; correspondence: schedule-injection harness (guarded hooks) under ASan and TSan")
+
+
+# ----------------------------------------------------------------------------- C10
+
+def gen_parallel(rng, tier):
+    out = []
+    for k in range(counts(tier, 90, 800)):
+        r = rng.random()
+        hi = 9 if tier == "quick" else 16
+        if r < 0.3:
+            g = gen.raster(rng, 3, hi, cache=True)
+        elif r < 0.6:
+            g = gen.raster(rng, 3, hi, cache=False)
+        elif r < 0.75:
+            g = gen.profile(rng, 4, 40, cache=rng.random() < 0.5)
+        else:
+            g = gen.mesh(rng, 4, 7 if tier == "quick" else 10)
+        T = rng.choice([2, 3, 4, 8, 16])
+        fam = rng.choice([["single"], ["pflood", "single"], ["single", "mst:%s:%s" % (rng.choice("kb"), rng.choice(["basic", "carve"]))],
+                          ["single", "snap:a:g", "multi:" + hx(1.0)]])
+        seq_ops = list(fam)
+        par_ops = [("single:%d" % T if o == "single" else o) for o in fam]
+        single_final = not any(o.startswith("multi") for o in fam)
+        body = []
+        for u in range(rng.randint(1, 3)):
+            if rng.random() < 0.4:
+                body.append("set_mask " + " ".join(map(str, gen.mask_bits(rng, g))))
+            if rng.random() < 0.3:
+                body.append("set_base " + " ".join(map(str, rng.sample(range(g.n), rng.randint(1, min(3, g.n))))))
+            body.append("update " + gen.hexes(gen.elevation(rng, g)))
+            body.append("acc s " + hx(1.0))
+            if single_final:
+                body.append("basins")
+            # kernels: sequential reference first, then thread counts / thresholds
+            for d in ("bfs", "any", "dfs"):
+                body.append("kernel %s 1 0 0" % d)
+                for _ in range(2):
+                    body.append("kernel %s %d %d %d" % (d, rng.choice([2, 3, 4, 8, 16]), rng.choice([0, 1, 4, 64]), rng.choice([0, 1, 3, 16, 1000])))
+        lines = [g.line(), "graph " + " ".join(seq_ops)] + body + ["graph " + " ".join(par_ops)] + body
+        out.append(("p%d" % k, lines))
+    return out
+
+
+def par_tags(si):
+    t = tags_grid(si)[:1] if si.calls else []
+    g = si.calls[0].toks if si.calls else []
+    if len(g) > 11 and g[1] == "raster":
+        t.append("raster_cache:" + g[11])
+    for c in si.calls:
+        if c.cmd == "graph":
+            for o in c.toks[1:]:
+                if o.startswith("single:"):
+                    t.append("threads:" + o.split(":")[1])
+    return sorted(set(t))
+
+
+def c10_runner(P, exe, model_ok, rng, tier, replay=None):
+    """ASan run with model correspondence + the same scenarios repeated under the thread sanitizer"""
+    res = generic_runner(P, exe, model_ok, rng, tier, replay)
+    texe, tmsg = build.build_harness("tsan")
+    res["coverage"]["harness_tsan"] = tmsg.split("\n")[0]
+    if texe is None:
+        res["corr_broken"].append("thread-sanitizer harness does not build: " + tmsg[:300])
+        return res
+    if replay:
+        scns = read_blocks(replay)
+    else:
+        rng2 = random_mod.Random(rng.random())
+        scns = (corpus(P["id"]) + P["gen"](rng2, tier))[: counts(tier, 40, 300)]
+    impl, notes, sans = run.run_harness(texe, scns, watchdog=P.get("watchdog", 30))
+    seen = set()
+    tmap = dict(scns)
+    for r in sans:
+        if "ThreadSanitizer" not in r["kind"]:
+            continue
+        key = (r["kind"], r["where"])
+        if key in seen:
+            continue
+        seen.add(key)
+        sid = r.get("scn")
+        res["fails"].append(dict(clause="data_race", cause=r["where"], witness="%s at %s (scenario %s)" % (r["kind"], r["where"], sid),
+                                 scenario_text=(run.scn_text((sid, tmap[sid])) if sid in tmap else "") + "\n# report:\n# " + r["text"][:1800].replace("\n", "\n# ")))
+    for sid, lines in scns:
+        si = impl.get(sid)
+        if si is None:
+            continue
+        if si.hang or (sid in notes and notes[sid][0] in (3, -9)):
+            res["fails"].append(dict(clause="terminates", cause="other", witness="scenario %s under the thread sanitizer: call did not return" % sid, scenario_text=run.scn_text((sid, lines))))
+            continue
+        for clause, wit in oracle.c10(si)[:3]:
+            res["fails"].append(dict(clause=clause, cause="other", witness="scenario %s (thread-sanitizer build): %s" % (sid, wit), scenario_text=run.scn_text((sid, lines))))
+    res["coverage"]["tsan_scenarios"] = len(scns)
+    res["coverage"]["tsan_reports"] = len(seen)
+    return res
+
+
+register("C10", gen=gen_parallel, runner=c10_runner, oracles=[oracle.c10], watchdog=30,
+         nontrivial=lambda si: sum(1 for c in si.calls if c.cmd == "graph") >= 2 and any(c.cmd == "kernel" and int(c.toks[2]) > 1 and "kernel" in c.O for c in si.calls),
+         tags=par_tags, sections={"update", "elev", "acc", "acc_overloads_agree", "basins", "outlets", "pits", "kernel", "graph"} | GRAPH_SECTIONS,
+         rule="cached raster, cache-less raster, profile and mesh grids; operator families with a single router (plain, flooded, spanning-tree resolved, followed by a multi router); every scenario runs the same 1-3 updates (+ accumulate, basins, kernels) first with sequential routers, then with 2..16 threads; kernels applied sequentially and with thread counts 2..16 x minimum block sizes x minimum level sizes in breadth-first / any / depth-first order; everything under ASan and again under the thread sanitizer; non-trivial = both graphs ran and a multi-threaded kernel returned",
+         lean_modules=["FsProofs.Properties.C10"],
+         theorems=["Fs.C10.par_rows_eq_seq", "Fs.C10.par_tables_eq_seq", "Fs.C10.source_nocache_per_thread", "Fs.Commute.schedules_agree", "Fs.C11.index_in_unique_block", "Fs.C11.no_stuck_state"],
+         trusted_base=FLOW_TB + ["footprints of the per-node router task (own receiver row, own neighbour buffer) are read off the source by hand; the storage class of the pass-through neighbour buffer is regenerated by translate.py",
+                                 "thread interleavings are explored by the OS scheduler under TSan/ASan and by repeated runs, not enumerated"])
+_lvl("C10", "proof",
+     "Theorems: schedules_agree (tasks whose write sets are pairwise disjoint and disjoint from the others' read sets end in the same memory state under every interleaving), par_rows_eq_seq / par_tables_eq_seq (the model's multi-threaded router is the sequential per-node function applied to every node: receivers, distances, weights and the donor lists without self entries - hence the traversal orders computed from them - coincide), source_nocache_per_thread (the pass-through neighbour buffer is per thread in the source, re-decided each run), with the pool theorems of C11 (each index in exactly one block; no hang). The level-synchronous kernel dispatch is tied by correspondence/oracle only.",
+     "Lean 4 non-interference induction over interleavings + model equality seq/par + translator flag; correspondence under ASan and TSan with sequential-vs-parallel oracle")
